@@ -37,6 +37,9 @@ def cases(tier, seed):
             shape = files.small_shape_for(rbs, rng, blocks=(2, 2), cap=700_000)
             d = files.wspec_desc(rng, shape, rate, bs, kind='numpy', il=[rng.choice([0, 3, -9]), rng.choice([1, 2])], xl=[5, 2])
             out.append({'id': 'np:%s:%s:%d' % (rate, 'x'.join(map(str, bs)), rep), 'file': d, 'nreq': 6, 'cost': 3})
+    # traces longer than the 16-bit sample count of a SEG-Y binary header can say (a NumPy source has no such header to keep consistent)
+    out.append({'id': 'np:long-traces', 'file': files.wspec_desc(rng, (4, 6, 66000), 16, (4, 4, -1), kind='numpy', il=[1, 1], xl=[5, 2], valkind='smooth'), 'nreq': 2, 'cost': 6,
+                'keep_z': True})
     # the fixture files of the repository (format versions 0.0.0 ... 0.2.8.dev, one of them with a single header block)
     for rel in files.fixtures():
         if rel in ('small-2d.sgz', 'small-irregular.sgz', 'small_hole.sgz'):
@@ -119,6 +122,8 @@ def run_case(case, ctx):
     shared_c = []
     for q in range(case['nreq']):
         reqs = [rand_req(n, b, rng) for n, b in zip((nI, nX, nZ), sp.bs)]
+        if case.get('keep_z') and q == 0:
+            reqs[2] = (None, 'none')        # the whole (long) trace is kept by the first request
         if all(r[0] is None for r in reqs):
             reqs[0] = ((0, nI), 'full')
         ir, xr, zr = [r[0] for r in reqs]
@@ -171,7 +176,8 @@ def run_case(case, ctx):
         strata.add('form:' + form)
         sl = tuple(slice(a, b) for a, b in W)
         fh = bytearray(sp.file_header)
-        fh[3220:3222] = int(W[2][1] - W[2][0]).to_bytes(2, 'big')
+        if W[2][1] - W[2][0] <= 0xFFFF:
+            fh[3220:3222] = int(W[2][1] - W[2][0]).to_bytes(2, 'big')       # (a longer trace does not fit the 16-bit SEG-Y field, which is then left as it was)
         t = {'shape': tuple(b - a for a, b in W), 'rate': sp.rate, 'bs': sp.bs, 'ilines': il[sl[0]], 'xlines': xl[sl[1]], 'samples': zs[sl[2]],
              'ntraces': (W[0][1] - W[0][0]) * (W[1][1] - W[1][0]), 'data_image': V[sl], 'file_header': bytes(fh),
              'fields': {k: a.reshape(nI, nX)[sl[0], sl[1]].reshape(-1) for k, a in F.items()}}
